@@ -1,65 +1,71 @@
-"""Second tie between model and code: the *translated* attack-graph core.
+"""Second tie between model and code: the *translated* Python.
 
-`translators/py2lean.py` turns the current source of node.py / attacker.py / query.py / attackgraph.py /
-analyzers/apriori.py into Lean definitions (`lean/MalVerif/Py/Gen/*.lean`); `Py/Tie*.lean` prove that these
-definitions coincide with the hand-written model under the abstraction of `Py/Abs.lean`, and `PropsGen/Cnn.lean`
-restate the property theorems for the translated code.
+Each translator `translators/<name>.py` that defines a table `TIE` is a *domain*: it turns the current source of some
+functions of /repo into Lean definitions (`generate(repo) -> {module: text}`, committed under `TIE['gen_dir']` and
+checked by `lake build`); hand-written `Py/Tie*.lean` files prove that these definitions coincide with the
+hand-written model under an abstraction, and `PropsGen/Cnn.lean` restate the property theorems for the translated
+code.  `TIE` lists: `gen_dir` (relative to lean/), `gen_modules` (in import order), `chain` (the Lean modules that
+depend on the generated code, in dependency order), `needs` (property -> the modules that carry its claim) and
+`sources` (property -> the Python functions its theorems are about, for the evidence file).
 
-On every run of a check of C08, C09, C11, C12, C13:
+On every run of a check of a property that some domain `needs`:
   * the translation is regenerated from /repo and compared with the committed files that `lake build` checked;
   * identical  -> the theorems hold of what the code says now (status `identical`);
-  * different  -> the new translation and every module that depends on it are re-checked by Lean in a scratch
-                  directory (nothing under lean/.lake is touched): status `reproved` if all proofs still go through,
-                  `broken` (with the first error) otherwise; `untranslatable` if the source left the supported subset.
+  * different  -> the new translation and every module that (transitively) imports a changed module are re-checked
+                  by Lean in a scratch overlay (nothing under lean/.lake is touched): status `reproved` if all proofs
+                  the property needs still go through, `broken` (with the first error) otherwise; `untranslatable`
+                  if the source left the supported subset.
 A broken / untranslatable tie is not a violation by itself: the caller escalates the search for a failing input
 (more seeds of the correspondence run); see DESIGN.md §I.9 for what is reported when nothing is found.
 """
 from __future__ import annotations
-import os, subprocess, sys, shutil, time
+import importlib, os, re, subprocess, sys, shutil, time
 from . import common
 
-GEN_MODULES = ['Node', 'Attacker', 'NodeDelegates', 'Query', 'Graph', 'Apriori', 'Eval', 'Link']
-# modules that depend on the generated code, in dependency order
-CHAIN = ['MalVerif.Py.TieNode', 'MalVerif.Py.TieGraph', 'MalVerif.Py.TieApriori', 'MalVerif.Py.TieEval', 'MalVerif.Py.TieLink', 'MalVerif.PropsGen.C01',
-         'MalVerif.PropsGen.C08', 'MalVerif.PropsGen.C09', 'MalVerif.PropsGen.C11', 'MalVerif.PropsGen.C12',
-         'MalVerif.PropsGen.C13']
-# which modules carry the claim of a property (its PropsGen file and what that imports)
-NEEDS = {
-    'C01': ['MalVerif.Py.TieEval', 'MalVerif.Py.TieLink', 'MalVerif.PropsGen.C01'],
-    'C08': ['MalVerif.Py.TieApriori', 'MalVerif.PropsGen.C08'],
-    'C09': ['MalVerif.Py.TieNode', 'MalVerif.Py.TieGraph', 'MalVerif.PropsGen.C09'],
-    'C11': ['MalVerif.Py.TieNode', 'MalVerif.PropsGen.C11'],
-    'C12': ['MalVerif.Py.TieNode', 'MalVerif.PropsGen.C12'],
-    'C13': ['MalVerif.Py.TieNode', 'MalVerif.Py.TieGraph', 'MalVerif.PropsGen.C13'],
-}
-# python functions whose translation a property's theorems are about (for the evidence file)
-SOURCES = {
-    'C01': 'attackgraph.py: _process_step_expression (the methods it calls on lang_graph / model are parameters: EvalEnv) and the linking loop (second loop) of _generate_graph',
-    'C08': 'analyzers/apriori.py: propagate_viability_from_node, propagate_necessity_from_node, _has_ttc_distribution, evaluate_viability, evaluate_necessity, evaluate_viability_and_necessity, calculate_viability_and_necessity',
-    'C09': 'attackgraph.py: get_node_by_id, get_node_by_full_name, get_attacker_by_id, add_node, remove_node, add_attacker, remove_attacker; attacker.py: compromise, undo_compromise; node.py: full_name',
-    'C11': 'attacker.py: compromise, undo_compromise; node.py: is_compromised, is_compromised_by, compromise, undo_compromise',
-    'C12': 'query.py: is_node_traversable_by_attacker, get_attack_surface, update_attack_surface_add_nodes, get_defense_surface, get_enabled_defenses; node.py: is_available_defense, is_enabled_defense, is_compromised_by',
-    'C13': 'analyzers/apriori.py: prune_unviable_and_unnecessary_nodes; attackgraph.py: remove_node; attacker.py: undo_compromise',
-}
-PIDS = set(NEEDS)
+TRANSLATORS = os.path.join(common.VERIF, 'translators')
 
-def _translate():
-    sys.path.insert(0, os.path.join(common.VERIF, 'translators'))
+def _load_domains():
+    doms = []
+    sys.path.insert(0, TRANSLATORS)
     try:
-        import py2lean
+        for f in sorted(os.listdir(TRANSLATORS)):
+            if not f.endswith('.py'): continue
+            m = importlib.import_module(f[:-3])
+            if hasattr(m, 'TIE') and hasattr(m, 'generate'):
+                doms.append(m)
     finally:
         sys.path.pop(0)
+    # py2lean (the attack-graph core) first: other domains may import its generated modules
+    doms.sort(key=lambda m: (m.__name__ != 'py2lean', m.TIE.get('order', 50), m.__name__))
+    return doms
+
+DOMAINS = _load_domains()
+PIDS = {p for d in DOMAINS for p in d.TIE['needs']}
+
+def _gen_mod(dom, m):  # lean module name of a generated file
+    return dom.TIE['gen_dir'].replace('/', '.') + '.' + m
+
+def _translate(dom, modules=None):
     try:
-        return py2lean.generate(common.REPO), None
-    except py2lean.Unsupported as e:
+        return (dom.generate(common.REPO, modules) if modules else dom.generate(common.REPO)), None
+    except dom.Unsupported as e:
         return None, str(e)
     except SyntaxError as e:
         return None, f'python syntax error: {e}'
+    except Exception as e:      # a translator bug on unexpected source is "cannot translate", never a crash of the check
+        return None, f'translator failed: {type(e).__name__}: {e}'
 
 def _mod_path(mod: str) -> str:
     return os.path.join(common.LEAN, *mod.split('.')) + '.lean'
 
-def _compile(mod: str, src: str, out: str, lean_path: str, root: str | None = None, timeout=900):
+def _imports(path: str) -> list[str]:
+    try:
+        src = open(path, encoding='utf-8').read()
+    except OSError:
+        return []
+    return re.findall(r'^import\s+([\w\.]+)', src, re.M)
+
+def _compile(mod: str, src: str, out: str, lean_path: str, root: str | None = None, timeout=1800):
     rel = os.path.join(out, *mod.split('.'))
     os.makedirs(os.path.dirname(rel), exist_ok=True)
     for ext in ('.olean', '.ilean'):          # never write through a link into lean/.lake
@@ -72,24 +78,55 @@ def _compile(mod: str, src: str, out: str, lean_path: str, root: str | None = No
     return (not bad), txt[-1500:]
 
 def translator_tie(pid: str) -> dict:
-    if pid not in PIDS:
+    doms = [d for d in DOMAINS if pid in d.TIE['needs']]
+    if not doms:
         return {}
     t0 = time.time()
-    res = {'sources': SOURCES[pid], 'translator': 'translators/py2lean.py', 'modules': NEEDS[pid]}
-    gen, why = _translate()
-    if gen is None:
-        res.update(status='untranslatable', detail=why)
-        return res
-    gdir = os.path.join(common.LEAN, 'MalVerif', 'Py', 'Gen')
-    changed = [m for m in GEN_MODULES
-               if not os.path.exists(os.path.join(gdir, m + '.lean'))
-               or open(os.path.join(gdir, m + '.lean'), encoding='utf-8').read() != gen[m]]
-    res['generated_functions'] = sum(t.count('\ndef ') for t in gen.values())
-    if not changed:
+    needs = [m for d in doms for m in d.TIE['needs'][pid]]
+    res = {'sources': '; '.join(d.TIE['sources'][pid] for d in doms),
+           'translator': ', '.join(f'translators/{d.__name__}.py' for d in doms), 'modules': needs}
+    # regenerate every domain (a module this property needs may import generated code of another domain)
+    gens, changed_mods, nfun = {}, [], 0
+    for d in DOMAINS:
+        gen, why = _translate(d)
+        if gen is None and d in doms:
+            # retry with only the generated modules this property's theorems rest on
+            prefix = d.TIE['gen_dir'].replace('/', '.') + '.'
+            used = sorted({i[len(prefix):] for n in needs for i in _closure_imports(n) if i.startswith(prefix)})
+            if used:
+                gen, why2 = _translate(d, used)
+                if gen is not None:
+                    res['note'] = f'{d.__name__}: only {sorted(gen)} could be translated ({why})'
+        if gen is None:
+            if d in doms:
+                res.update(status='untranslatable', detail=f'{d.__name__}: {why}', wall_s=round(time.time() - t0, 2))
+                return res
+            continue                            # a domain this property does not use: its files stay as committed
+        gens[d.__name__] = gen
+        gdir = os.path.join(common.LEAN, d.TIE['gen_dir'])
+        for m in d.TIE['gen_modules']:
+            if m not in gen: continue
+            f = os.path.join(gdir, m + '.lean')
+            if not os.path.exists(f) or open(f, encoding='utf-8').read() != gen[m]:
+                changed_mods.append((d, m))
+        if d in doms: nfun += sum(t.count('\ndef ') for t in gen.values())
+    res['generated_functions'] = nfun
+    if not changed_mods:
         res.update(status='identical', detail='regenerated translation is identical to the files checked by lake build',
                    wall_s=round(time.time() - t0, 2))
         return res
-    # re-check in a scratch directory
+    # which modules must be re-checked: everything that transitively imports a changed generated module
+    changed = {_gen_mod(d, m) for d, m in changed_mods}
+    res['changed_modules'] = sorted(changed)
+    order = []          # (module, source path or None for generated, text)
+    for d in DOMAINS:
+        if d.__name__ in gens:
+            for m in d.TIE['gen_modules']:
+                if m in gens[d.__name__]: order.append((_gen_mod(d, m), None, gens[d.__name__][m], d))
+    for d in DOMAINS:
+        for mod in d.TIE['chain']: order.append((mod, _mod_path(mod), None, d))
+    dirty = set(changed)
+    srcd_cache = {}
     sc = os.path.join(common.scratch(), 'tie'); out = os.path.join(sc, 'out'); srcd = os.path.join(sc, 'src')
     shutil.rmtree(sc, ignore_errors=True); os.makedirs(out); os.makedirs(srcd)
     # Lean resolves a module through the first search-path entry that contains its top-level directory, so the
@@ -102,29 +139,57 @@ def translator_tie(pid: str) -> dict:
         for f in files:
             if f.endswith(('.olean', '.ilean')) or '.olean.' in f:
                 os.symlink(os.path.join(root_, f), os.path.join(out, rel, f))
-    lean_path = out
-    res['changed_modules'] = changed
-    for m in GEN_MODULES:                     # all of them: later ones import earlier ones
-        f = os.path.join(srcd, 'MalVerif', 'Py', 'Gen', m + '.lean')
-        os.makedirs(os.path.dirname(f), exist_ok=True)
-        open(f, 'w', encoding='utf-8').write(gen[m])
-        ok, log = _compile(f'MalVerif.Py.Gen.{m}', f, out, lean_path, root=srcd)
-        if not ok:
-            res.update(status='broken', detail=f'generated module {m} does not compile: {log[-600:]}',
-                       wall_s=round(time.time() - t0, 2))
-            return res
-    failed = None
-    for mod in CHAIN:                          # every dependent must be rebuilt against the new translation
-        ok, log = _compile(mod, _mod_path(mod), out, lean_path)
-        if not ok:
-            if mod in NEEDS[pid]:
-                failed = (mod, log); break
-            # a module this property does not need failed: later modules that import it cannot be checked either,
-            # but none of them is needed by this property unless listed in NEEDS (which are checked before use)
-            continue
-    if failed:
-        res.update(status='broken', detail=f'{failed[0]} no longer checks against the regenerated translation: {failed[1][-800:]}')
+    failed_mods = {}
+    for mod, path, text, d in order:
+        if text is not None:
+            f = os.path.join(srcd, *mod.split('.')) + '.lean'
+            os.makedirs(os.path.dirname(f), exist_ok=True)
+            open(f, 'w', encoding='utf-8').write(text)
+            imps = re.findall(r'^import\s+([\w\.]+)', text, re.M)
+            if mod not in dirty and not (set(imps) & dirty): continue
+            dirty.add(mod)
+            if set(imps) & set(failed_mods):
+                failed_mods[mod] = f'imports {sorted(set(imps) & set(failed_mods))[0]}, which no longer checks'
+                continue
+            ok, log = _compile(mod, f, out, out, root=srcd)
+            if not ok:
+                failed_mods[mod] = log
+        else:
+            imps = _imports(path)
+            if not (set(imps) & dirty): continue
+            dirty.add(mod)
+            if set(imps) & set(failed_mods):
+                failed_mods[mod] = f'imports {sorted(set(imps) & set(failed_mods))[0]}, which no longer checks'
+                continue
+            ok, log = _compile(mod, path, out, out)
+            if not ok:
+                failed_mods[mod] = log
+    res['rechecked_modules'] = len(dirty)
+    # the claim of this property rests on its `needs` (a failure below them has been propagated upwards)
+    bad = [m for m in needs if m in failed_mods]
+    if bad:
+        first = bad[0]
+        root_cause = first
+        # name the first module in dependency order that failed by itself
+        for mod, *_ in order:
+            if mod in failed_mods and not failed_mods[mod].startswith('imports '):
+                if mod == first or mod in _closure_imports(first): root_cause = mod; break
+        res.update(status='broken', detail=f'{root_cause} no longer checks against the regenerated translation: '
+                                           f'{failed_mods[root_cause][-800:]}')
     else:
-        res.update(status='reproved', detail='translation changed; all tie and property theorems re-checked against it')
+        res.update(status='reproved', detail='translation changed; all tie and property theorems that depend on it '
+                                             're-checked against it')
     res['wall_s'] = round(time.time() - t0, 2)
     return res
+
+_closure_cache: dict[str, set] = {}
+def _closure_imports(mod: str) -> set:
+    """transitive MalVerif imports of a (committed) module"""
+    if mod in _closure_cache: return _closure_cache[mod]
+    _closure_cache[mod] = set()
+    acc = set()
+    for i in _imports(_mod_path(mod)):
+        if i.startswith('MalVerif'):
+            acc.add(i); acc |= _closure_imports(i)
+    _closure_cache[mod] = acc
+    return acc
